@@ -52,6 +52,8 @@ CLAIMS = {
          "racing writers are scheduled by the runtime, not a controlled scheduler; process crashes only"),
  "C19": ("model_checking", "Paths.tla (path.Clean, validGroupName, validUsername, parseGroupName, getDescriptionFile's file name, the recordings delete target as operators over component sequences, against the property's closed form and 'resolution never climbs above the root') is checked by TLC on every name of up to 3 components over 7 component kinds, the faithful switch re-finding the repaired F22; the real validators, parser, description functions and openDiskFile run on every table row, hand-written escapes and seeded hostile strings inside a scratch tree with sentinels next to the configured directories (tree compared before/after every call), and raw HTTP traversal attempts on the static, group, API, recordings and delete-form routes plus websocket joins under bad names run against the real server with every directory digested after every request; Trace_Paths judges.",
          "Linux separator semantics; no symbolic links planted; recorder file names judged at openDiskFile"),
+ "C20": ("model_checking", "Recorder.tla / RecOps.tla (per packet: written, cache-only, held and released inside the reorder window, lost, duplicated; Write's gap detection and fetch as Layer I; 'only complete sent frames, each once, in order; nothing lost => every complete frame from the first complete keyframe on' as Layer P) enumerates EVERY history of a 6-packet video stream and a 6-frame audio stream with design checks; every enumerated history and seeded long ones (to 900 packets, seqno and 32-bit timestamp wrap, audio+video with sender reports, stop vs departure) run on the REAL diskwriter.Client via PushConn with a fake publisher and cache; the WebM files are parsed back with ebml-go and Trace_Rec replays the logged operations through RecOps and judges R1-R6; K1 (dependency) is matched by its signature only.",
+         "VP8/Opus payloads only; shared origin judged only with sender reports; keyframe flag not judged"),
 }
 REASON_DEFAULT = "check under construction (not yet registered); see DESIGN.md section 5"
 NA = {}
